@@ -42,6 +42,17 @@ Tie (this file): real `SquareLoss` objects on catalogue models (SIR, SEIR, SIR_n
    by construction of the model (`C20.jtj_entry` / `C20.hessianH_entry` give every entry as a function of those arguments
    alone); a memo keyed on less than (theta, initial state, the ode's other parameters), or a returned internal buffer,
    is exactly what breaks that on the Python side.
+ * ROUND C: `select` cases run the NAMED selections through systematically - observed states: all of them in every non-declared
+   order / a subset of >= 2 in a non-declared order / all in declared order / one; target_param: None / every parameter in a
+   non-declared order / a subset in non-declared order - always with weights that DIFFER BETWEEN THE OBSERVED STATES (per-state
+   vector, or n x p matrix with different columns), including a weight exactly 0 or exactly 1 for one state, on SIR_norm, `products`
+   and `general` random models (<= 3 states) and the time-dependent catalogue; a single observation time, a parameter exactly 0.
+   jtj / hessian / the full_output dictionaries are judged against the direct oracle in which observations, weights and
+   sensitivities are all taken in the NAMED order (`oidx`, `tidx`).  Lean: `jtj_perm_equivariant` (re-ordering the observed states
+   is harmless exactly when the weights are re-ordered along) + `jtj_weights_not_permuted_counterexample`.
+   `timedep` cases: losscommon.TD_CATALOGUE (a parameter acting only during a window of time, see C07) - the reference flow is the
+   HAND-WRITTEN right-hand side integrated piecewise between the non-smooth time points; the second-order right-hand side is
+   compared pointwise at a time INSIDE the window.
 """
 import copy
 import json
@@ -82,7 +93,12 @@ RULE = ("SquareLoss on SIR / SEIR / SIR_norm and on random bounded models (2-4 s
         "another theta, another loss object on the same ode, a deepcopy moved elsewhere; every evaluation is judged against the direct "
         "oracle of the state current at that moment (tags session:agrees:* count them, session:evals=n per case), full_output "
         "dictionaries entry by entry, kept results and caller arrays compared at the end; sens_to_jtj / sens_to_grad are called "
-        "twice on one caller-owned array")
+        "twice on one caller-owned array.  ROUND C: `select` cases (SIR_norm / products / general models with <= 3 states / time-dependent "
+        "catalogue, in turn) run observed states through all-permuted (every non-declared order in turn) / subset-permuted / all-declared / "
+        "one and target_param through None / all-permuted / subset-permuted, weights per-state or n x p with different columns, one weight "
+        "exactly 0 or exactly 1, single observation time (one observed state), a parameter exactly 0 (tags select:*, boundary:*); a quarter "
+        "of them carry a session; `timedep` cases: every (model, window shape) pair of losscommon.TD_CATALOGUE x TD_SHAPES in turn, the "
+        "windowed parameter always free, pointwise right-hand-side comparison at a time inside the window")
 ASSUMPTIONS = ["integrating the sensitivity systems yields the derivatives of the solution (as in C13); scipy integrators within tolerance",
                "the finite-difference Hessian of the reference cost is accurate to ~1e-6 relative (Richardson on 1e-12 solutions); "
                "comparisons use 1e-3 relative",
@@ -90,7 +106,7 @@ ASSUMPTIONS = ["integrating the sensitivity systems yields the derivatives of th
                "first- / second-order sensitivities of the observed states (variational-equation theorem, not in Mathlib); what is "
                "proved is that the integrated system is the second-order variational equation (ff_rhs_is_true) and the assembly",
                "the pointwise right-hand-side oracle trusts sympy.diff / lambdify applied to get_ode_eqn() (C01 ties get_ode_eqn, C03 sympy.diff)"]
-TRUSTED = ["harness generator", "Lean driver JSON codec and list<->function glue", "numpy/scipy float arithmetic within the stated tolerances"]
+TRUSTED = ["harness generator", "hand-written right-hand sides of the time-dependent catalogue (losscommon.TD_CATALOGUE)", "Lean driver JSON codec and list<->function glue", "numpy/scipy float arithmetic within the stated tolerances"]
 
 SIG_MIXED = "hessian:missing-mixed-terms"        # a VIOLATION like any other (the finding was repaired)
 SIG_RHS = "forwardforward:rhs-not-second-order-equation"
